@@ -108,9 +108,29 @@ func isFreshLocal(v ssa.Value, fn *ssa.Function) bool {
 		}
 		return isFreshLocal(x.X, fn)
 	case *ssa.Call:
+		if bi, ok := x.Call.Value.(*ssa.Builtin); ok && bi.Name() == "append" && len(x.Call.Args) > 0 {
+			// append to storage of this call stays in (or re-allocates from) storage of this call
+			return isFreshLocal(x.Call.Args[0], fn)
+		}
 		if f := x.Call.StaticCallee(); f != nil {
 			k := core.FuncKey(f)
-			return k == "bytes.NewBuffer" || k == "bytes.NewBufferString"
+			if k == "bytes.NewBuffer" || k == "bytes.NewBufferString" {
+				return true
+			}
+			// a small constructor of the repository (newBuffer(n)): every return is storage
+			// made by that very call
+			if f.Pkg != nil && strings.HasPrefix(f.Pkg.Pkg.Path(), core.Module) && len(f.Blocks) > 0 && len(f.Blocks) <= 12 && f != fn {
+				rets := core.Returns(f)
+				if len(rets) == 0 {
+					return false
+				}
+				for _, r := range rets {
+					if len(r.Results) != 1 || !isFreshLocal(core.RetVal(r, 0), f) {
+						return false
+					}
+				}
+				return true
+			}
 		}
 	}
 	return false
